@@ -25,6 +25,7 @@ var c16comments = []struct{ name, text string }{
 	{"block", " /* c */ "}, {"block-stars", " /* * / ** */ "}, {"line", " -- c\n"}, {"line-own-line", "\n-- c\n "}, {"line-crlf", " -- c\r\n"}, {"block-multiline", " /* a\n b */ "}, {"block-banner", " /*** banner ***/ "}, {"block-odd-stars", " /* x *****/ "}, {"block-empty", " /**/ "}, {"line-empty", " --\n"},
 	{"block-leading-slash", " /*/ x */ "}, {"block-slashes", " /*// a /* b / */ "}, {"block-only-slash", " /*/*/ "}, {"block-dashes", " /*-- x --*/ "}, {"line-block-opener", " -- /* c\n"}, {"line-dashes", " ---- c --\n"}, {"block-quote", " /* it's \"q\" */ "}, {"two-blocks", " /* a */ /* b */ "},
 	{"two-lines", "\n-- a\n-- b\n"}, {"line-then-block", " -- a\n/* b */ "}, {"block-then-line", " /* a */-- b\n"}, {"three-mixed", "\n--a\n/*b*/\n--c\n"}, {"blocks-touching", " /* a *//* b */ "}, {"line-crlf-line", " -- a\r\n-- b\r\n"},
+	{"stars-1", " /***/ "}, {"stars-2", " /****/ "}, {"stars-3", " /*****/ "}, {"stars-6", " /* x ******/ "}, {"stars-9", " /* x *********/ "}, {"line-digit", " --1st\n"}, {"line-date", " --2024-01-01 x\n"}, {"line-zero", " --0\n"}, {"line-dash-digit", " ---1\n"},
 }
 
 // c16Gaps edits every whitespace gap of one generated statement.
